@@ -188,6 +188,14 @@ class Ctx:
         self.broken (they are not yet violations: the caller then searches for a failing input).
         """
         prop = self.prop
+        # every generated table is refreshed from the tree under test first (in a process of its own): a
+        # table left behind by a run against another tree must not decide this run
+        try:
+            r = subprocess.run([sys.executable, str(VERIF / "harness" / "extract" / "regen_all.py"), str(self.repo)],
+                               capture_output=True, text=True, timeout=300)
+            self.coverage["generated_tables"] = (r.stdout.strip().splitlines() or ["?"])[-1][:200]
+        except Exception as e:  # noqa: BLE001
+            self.coverage["generated_tables"] = f"regeneration failed: {e!r}"[:200]
         modules = modules or [f"AkVerif.Props.{prop}"]
         props_files = [LEAN / (m.replace(".", "/") + ".lean") for m in modules]
         theorems = []
